@@ -19,7 +19,7 @@ SPEC = dict(
           "regimes present, final-newline variants, BOM?, non-ASCII?, control chars?, pattern kinds, locale) tuples"),
     assumptions=["filler contains no digits/upper-case letters (they could extend a version or form a part name); "
                  "R1 proves every layout unambiguous before the real code runs"],
-    required=["glob_extra_cases", "matched_text_repeated_on_the_line", "updates_checked", "eol:LF", "eol:CRLF", "eol:CR", "eol:mixed", "locale_subprocess_runs", "bom_files",
+    required=["glob_extra_cases", "own_line_cases", "matched_text_repeated_on_the_line", "updates_checked", "eol:LF", "eol:CRLF", "eol:CR", "eol:mixed", "locale_subprocess_runs", "bom_files",
               "unconfigured_files_checked", "k04_evaluations", "no_final_newline_files", "legacy_updates_checked",
               "overlap_cases"],
     anchors=[("rewrite", "detect_line_sep"), ("v2rewrite", "rfd_from_content"), ("v2rewrite", "rewrite_files"),
@@ -61,6 +61,15 @@ def cases(ctx):
                         if ctx.mine(k):
                             yield {"kind": "glob-extra", "o": oi, "layout": layout, "legacy": legacy, "eol": eol, "rep": rep}
                         k += 1
+    # the configuration file's own current_version line (not listed under file_patterns): only the version value
+    # may change - a trailing comment, a neighbouring key with a similar name and the quoting stay as they are
+    for rep in range(reps):
+        for oi in range(len(OVERLAP)):
+            for vi in range(len(OWN_LINE_VARIANTS)):
+                for fmt in ("toml", "pyproject", "cfg"):
+                    if ctx.mine(k):
+                        yield {"kind": "own-line", "o": oi, "variant": vi, "fmt": fmt, "rep": rep}
+                    k += 1
     n = ctx.size(1600, 40000)
     nsub = ctx.size(48, 2400)
     for i in range(n):
@@ -152,6 +161,53 @@ def run_glob_extra(ctx, case):
         harness.rm_dir(d)
 
 
+OWN_LINE_VARIANTS = [
+    ("", "  # keep in sync with docs"),
+    ("", "  # see CHANGELOG [{cur}]"),
+    ("", "  # {cur} was released on a friday"),
+    ("", "  # was {cur}, next is unknown; {cur}!"),
+    ('current_version_note = "bump with care"\n', ""),
+    ('current_version_file = "VERSION {cur}"\n', "  # after {cur}"),
+]
+
+
+def run_own_line(ctx, case):
+    vp, cur, uargs, new = OVERLAP[case["o"]]
+    before_tmpl, comment_tmpl = OWN_LINE_VARIANTS[case["variant"]]
+    fmt = case["fmt"]
+    sect = {"toml": "bumpver", "pyproject": "tool.bumpver", "cfg": "bumpver"}[fmt]
+    name = {"toml": "bumpver.toml", "pyproject": "pyproject.toml", "cfg": "setup.cfg"}[fmt]
+    q = '"' if fmt != "cfg" or case["rep"] % 2 == 0 else ""
+    if fmt == "cfg" and "note" in before_tmpl and not q:
+        before_tmpl = before_tmpl.replace('"', "")
+
+    def text(v):
+        head = "# project configuration\n" + (f"[project]\nname = \"x\"\nversion = \"0\"\n\n" if fmt == "pyproject" else "")
+        body = (f"[{sect}]\n" + before_tmpl.replace("{cur}", cur) + f"current_version = {q}{v}{q}" +
+                comment_tmpl.replace("{cur}", cur) + f"\nversion_pattern = {q}{vp}{q}\n")
+        if fmt == "cfg":
+            return head + body + "\n[bumpver:file_patterns]\nnotes.txt =\n    v={version}\n"
+        return head + body + f"\n[{sect}.file_patterns]\n\"notes.txt\" = [\"v={{version}}\"]\n"
+
+    if fmt == "cfg" and comment_tmpl:
+        raise harness.Skip("ini-has-no-inline-comments")
+    d = harness.new_project({name: text(cur), "notes.txt": f"v={cur}\n"})
+    try:
+        res = harness.invoke(["update", "--no-fetch"] + uargs, cwd=d)
+        after = harness.snapshot(d)
+        ctx.count("own_line_cases")
+        ctx.evaluated(("own-line", vp, case["variant"], fmt, bool(q)), sample={"config": text(cur), "argv": res.args})
+        if res.exit_code != 0 or res.record_value("New Version: ") != new:
+            ctx.violation("other:own_line_update_failed", f"{name} with own line {text(cur).splitlines()[-6:-3]}: exit "
+                          f"{res.exit_code} {res.errors()[-2:]} {res.crash or ''}", case=case)
+            return
+        if after[name] != text(new).encode("utf-8") or after["notes.txt"] != f"v={new}\n".encode():
+            ctx.violation("own_line_pattern_rewrites_more_than_the_version", f"{name}: expected {text(new)!r}, got "
+                          f"{after[name].decode('utf-8', 'replace')!r}", case=case)
+    finally:
+        harness.rm_dir(d)
+
+
 def run_overlap(ctx, case):
     """Two patterns whose matches OVERLAP on one line (prefix-decorated and suffix-decorated {version} around the
     same occurrence), each also matching alone elsewhere, in both configuration orders, with a bump that changes
@@ -201,6 +257,8 @@ def run_case(ctx, case):
         return run_overlap(ctx, case)
     if case.get("kind") == "glob-extra":
         return run_glob_extra(ctx, case)
+    if case.get("kind") == "own-line":
+        return run_own_line(ctx, case)
     R = random.Random(case["pseed"])
     mods = updates.bvmods()
     contracts.install_k04()
